@@ -64,7 +64,7 @@ def main():
     out = f"{VERIF}/{kind}/MATRIX.md"
     with open(out, "w") as f:
         if kind == "seeded":
-            f.write("# Seeded changes versus the quick checks\n\nEach row: one independently written breaking change (see `<id>/notes.md`; ids ending in -A/-B are round 1, -C/-D round 2), applied to a scratch worktree of /repo, all claimed quick checks run against it.\n\n")
+            f.write("# Seeded changes versus the quick checks\n\nEach row: one independently written breaking change (see `<id>/notes.md`; ids ending in -A/-B are round 1, -C/-D round 2, -E/-F round 3), applied to a scratch worktree of /repo, all claimed quick checks run against it.\n\n")
             f.write("| seed | breaks | detected by (exit 1 = VIOLATION, exit 2 = ANALYSIS-ERROR) | first report |\n|---|---|---|---|\n")
             for s, hits in rows:
                 own = s.split("-")[0]
